@@ -56,6 +56,18 @@ struct Bs<T>(core::marker::PhantomData<T>);
 impl<T> Bs<T> {
     fn contract<'a, B: Ord, F: FnMut(&'a T) -> B>(s: &'a [T], b: &B, f: F) -> Result<usize, usize> { bs_contract(s, b, f) }
 }
+impl<T> Bs<T> {
+    /// for harnesses whose inputs are decided before a table is consulted: reaching the lookup at all is a failed obligation
+    /// (so the table is never read and CBMC need not encode a symbolic read of its 7143 rows)
+    fn never<'a, B: Ord, F: FnMut(&'a T) -> B>(_s: &'a [T], _b: &B, _f: F) -> Result<usize, usize> {
+        assert!(false, "lookup in a table that must not be consulted for this input class");
+        Err(0)
+    }
+    /// the assumed contract for every table but LANG_ONLY, which must not be consulted
+    fn contract_not_lang_only<'a, B: Ord, F: FnMut(&'a T) -> B>(s: &'a [T], b: &B, f: F) -> Result<usize, usize> {
+        if table_id(s.as_ptr()) == 0 { Self::never(s, b, f) } else { bs_contract(s, b, f) }
+    }
+}
 fn bs_contract<'a, T, B: Ord, F: FnMut(&'a T) -> B>(s: &'a [T], b: &B, mut f: F) -> Result<usize, usize> {
     let n = s.len();
     let id = table_id(s.as_ptr());
@@ -175,8 +187,13 @@ fn maximize_is_cascade_lang() {
 
 /// C07 idempotence: a result of maximize has all three subtags (asserted in every cascade harness), and maximize reports
 /// `unchanged` on every identifier that has all three — for ALL raw values, no table involved
+// no table may be consulted on these inputs (Bs::never: reaching a lookup fails the harness)
 #[kani::proof]
 #[kani::unwind(10)]
+#[kani::stub(<[(u64, u32, (std::option::Option<u64>, std::option::Option<u32>, std::option::Option<u32>))]>::binary_search_by_key, Bs::never)]
+#[kani::stub(<[(u32, u32, (std::option::Option<u64>, std::option::Option<u32>, std::option::Option<u32>))]>::binary_search_by_key, Bs::never)]
+#[kani::stub(<[(u32, (std::option::Option<u64>, std::option::Option<u32>, std::option::Option<u32>))]>::binary_search_by_key, Bs::never)]
+#[kani::stub(<[(u64, (std::option::Option<u64>, std::option::Option<u32>, std::option::Option<u32>))]>::binary_search_by_key, Bs::never)]
 fn maximize_full_is_unchanged() {
     let (l, s, r) = (any_some_lang(), any_script(), any_region());
     kani::assume(s.is_some() && r.is_some());
@@ -213,7 +230,9 @@ fn maximize_only_adds_fills_idempotent() {
 // `maximize` is replaced by M: an arbitrary but deterministic (memoised) function constrained only by what the
 // harnesses above prove of the real maximize for all inputs: None when all three are present; None for bare `und`;
 // otherwise None or Some((l', Some(s'), Some(r'))) with every given subtag kept and l' non-empty.  No table is read.
-const M_SLOTS: usize = 10;
+// at most four distinct keys are ever asked in one harness (the input and the three candidate forms of its maximized form); the
+// assertion in m_oracle checks that the memo never overflows
+const M_SLOTS: usize = 6;
 static mut M_N: usize = 0;
 static mut M_ARGS: [(Option<u64>, Option<u32>, Option<u32>); M_SLOTS] = [(None, None, None); M_SLOTS];
 static mut M_RES: [Option<(u64, u32, u32)>; M_SLOTS] = [None; M_SLOTS];
@@ -222,7 +241,7 @@ fn m_oracle(l: Language, s: Option<Script>, r: Option<Region>) -> Option<Triple>
     let key = (lraw(l), s.map(sraw), r.map(rraw));
     unsafe {
         let mut i = 0;
-        while i < M_N {
+        while i < M_N && i < M_SLOTS {
             if M_ARGS[i] == key {
                 return M_RES[i].map(|(a, b, c)| (Language::from_raw_unchecked(a), Some(Script::from_raw_unchecked(b)), Some(Region::from_raw_unchecked(c))));
             }
@@ -246,10 +265,10 @@ fn mstar(t: Triple) -> Option<Triple> { if is_full(t) { Some(t) } else { m_oracl
 fn cnt(t: Triple) -> u8 { t.1.is_some() as u8 + t.2.is_some() as u8 }
 
 #[kani::proof]
-#[kani::unwind(11)]
+#[kani::unwind(10)]
 #[kani::stub(maximize, m_oracle)]
-fn minimize_laws() {
-    let x: Triple = (any_lang(), any_script(), any_region());
+fn minimize_laws() { laws_body((any_lang(), any_script(), any_region())); }
+fn laws_body(x: Triple) {
     let mx = mstar(x);
     match minimize(x.0, x.1, x.2) {
         Some(y) => {
@@ -280,39 +299,47 @@ fn minimize_laws() {
             }
         }
     }
-    kani::cover!(minimize(x.0, x.1, x.2).is_some() && x.0.is_empty());
-    kani::cover!(minimize(x.0, x.1, x.2).is_none() && mx.is_some());
 }
 
 fn apply_min(x: Triple) -> Triple { minimize(x.0, x.1, x.2).unwrap_or(x) }
 fn apply_max(x: Triple) -> Triple { maximize(x.0, x.1, x.2).unwrap_or(x) }
 
 #[kani::proof]
-#[kani::unwind(11)]
+#[kani::unwind(10)]
 #[kani::stub(maximize, m_oracle)]
-fn minimize_idempotent() {
-    let x: Triple = (any_lang(), any_script(), any_region());
+fn minimize_idempotent() { idem_body((any_lang(), any_script(), any_region())); }
+fn idem_body(x: Triple) {
     let y = apply_min(x);
     // minimizing twice equals minimizing once
     assert!(apply_min(y) == y);
-    kani::cover!(y != x);
 }
 
 /// minimize(maximize(x)) equals minimize(x) — for every x for which one of the three candidate forms maximizes back to
 /// the maximized x (or which does not maximize at all).  For the remaining inputs the law cannot hold together with the
 /// other clauses of C08 (see DESIGN.md, finding F1, and the harness `finding_minimize_after_maximize_und_arab_id`).
 #[kani::proof]
-#[kani::unwind(11)]
+#[kani::unwind(10)]
 #[kani::stub(maximize, m_oracle)]
-fn minimize_after_maximize() {
-    let x: Triple = (any_lang(), any_script(), any_region());
+fn minimize_after_maximize() { after_max_body((any_lang(), any_script(), any_region())); }
+fn after_max_body(x: Triple) {
     if let Some(m) = mstar(x) {
         kani::assume(m_oracle(m.0, None, None) == Some(m) || m_oracle(m.0, None, m.2) == Some(m) || m_oracle(m.0, m.1, None) == Some(m));
     }
     let y = apply_min(x);
     assert!(apply_min(apply_max(x)) == y);
-    kani::cover!(y != x);
-    kani::cover!(mstar(x).is_none());
+}
+/// vacuity guard for the three C08 bodies: a changed result, an unchanged one with a maximizing input, and a changed result for an
+/// input with a language are all reachable under the oracle
+#[kani::proof]
+#[kani::unwind(10)]
+#[kani::stub(maximize, m_oracle)]
+fn minimize_oracle_not_vacuous() {
+    let x: Triple = (Language::default(), any_script(), any_region());
+    let y = minimize(x.0, x.1, x.2);
+    kani::cover!(y.is_some());
+    kani::cover!(y.is_none() && mstar(x).is_some());
+    let z: Triple = (any_some_lang(), None, any_region());
+    kani::cover!(apply_min(z) != z);
 }
 
 /// F1 (known finding, real tables, no stub): und-Arab-ID maximizes to ms-Arab-ID, none of ms / ms-ID / ms-Arab maximizes
@@ -325,13 +352,14 @@ fn finding_minimize_after_maximize_und_arab_id() {
     assert!(apply_min(apply_max(x)) == y);
 }
 
-/// quick-tier slice of maximize_is_cascade_lang: inputs decided by a (language, region) or (language, script) entry
+/// quick-tier slice of maximize_is_cascade_lang: inputs decided by a (language, region) or (language, script) entry;
+/// for these the language-only table must not be consulted at all (Bs::never: reaching that lookup fails the harness)
 #[kani::proof]
 #[kani::unwind(10)]
-#[kani::stub(<[(u64, u32, (std::option::Option<u64>, std::option::Option<u32>, std::option::Option<u32>))]>::binary_search_by_key, Bs::contract)]
-#[kani::stub(<[(u32, u32, (std::option::Option<u64>, std::option::Option<u32>, std::option::Option<u32>))]>::binary_search_by_key, Bs::contract)]
-#[kani::stub(<[(u32, (std::option::Option<u64>, std::option::Option<u32>, std::option::Option<u32>))]>::binary_search_by_key, Bs::contract)]
-#[kani::stub(<[(u64, (std::option::Option<u64>, std::option::Option<u32>, std::option::Option<u32>))]>::binary_search_by_key, Bs::contract)]
+#[kani::stub(<[(u64, u32, (std::option::Option<u64>, std::option::Option<u32>, std::option::Option<u32>))]>::binary_search_by_key, Bs::contract_not_lang_only)]
+#[kani::stub(<[(u32, u32, (std::option::Option<u64>, std::option::Option<u32>, std::option::Option<u32>))]>::binary_search_by_key, Bs::contract_not_lang_only)]
+#[kani::stub(<[(u32, (std::option::Option<u64>, std::option::Option<u32>, std::option::Option<u32>))]>::binary_search_by_key, Bs::contract_not_lang_only)]
+#[kani::stub(<[(u64, (std::option::Option<u64>, std::option::Option<u32>, std::option::Option<u32>))]>::binary_search_by_key, Bs::contract_not_lang_only)]
 fn maximize_is_cascade_lang_specific() {
     let l = any_some_lang();
     let (s, r) = (any_script(), any_region());
@@ -339,7 +367,11 @@ fn maximize_is_cascade_lang_specific() {
     let hit_lr = r.is_some() && find_lang_region(lr, rraw(r.unwrap())).is_some();
     let hit_ls = s.is_some() && find_lang_script(lr, sraw(s.unwrap())).is_some();
     kani::assume(hit_lr || hit_ls);
-    let want = cascade_spec(l, s, r);
+    // cascade_spec restricted to this input class (its language-only step is not reached): all three present -> unchanged,
+    // else the (language, region) entry, else the (language, script) entry, every given subtag kept
+    let want = if s.is_some() && r.is_some() { None }
+        else if hit_lr { merged(find_lang_region(lr, rraw(r.unwrap())).unwrap(), s, r) }
+        else { merged(find_lang_script(lr, sraw(s.unwrap())).unwrap(), s, r) };
     let got = raw3(maximize(l, s, r));
     assert!(got == want.map(|(a, b, c)| (Some(a), Some(b), Some(c))));
     // C07 (same run, on the value already computed): fills all three, every given subtag kept, something was missing
